@@ -140,6 +140,24 @@ class Kinds:
                 out |= k
             return frozenset(out) or UNKNOWN
         if isinstance(x, ast.IfExp):
+            t = x.test
+            if isinstance(t, ast.Call) and isinstance(t.func, ast.Name) and \
+                    t.func.id == 'isinstance' and len(t.args) == 2 and \
+                    env is not None and frame is not None and \
+                    path_of(t.args[0], frame) is not None:
+                # `v.decode() if isinstance(v, bytes) else v`: each arm
+                # under what the test says about v
+                tp = path_of(t.args[0], frame)
+                cur = self.eval(t.args[0], ctx, env, frame)
+                yes, no = isinstance_split(self, t, ctx.func.module, cur)
+                out = frozenset()
+                if yes:
+                    out |= self.eval(x.body, ctx, lambda q: yes
+                                     if q == tp else env(q), frame)
+                if no:
+                    out |= self.eval(x.orelse, ctx, lambda q: no
+                                     if q == tp else env(q), frame)
+                return out or UNKNOWN
             return self.eval(x.body, ctx, env, frame) | \
                 self.eval(x.orelse, ctx, env, frame)
         if isinstance(x, ast.Compare):
@@ -407,12 +425,42 @@ class KindFlow:
                 del d[q]
             d[p] = kinds
 
+    def _comp_elements(self, a: ast.Assign, n: Node, d: dict):
+        """kinds of the elements of `[elt for v in (x, y, ...)]` unpacked into
+        as many targets, or None"""
+        c = a.value
+        if not (isinstance(c, (ast.ListComp, ast.GeneratorExp)) and
+                len(a.targets) == 1 and
+                isinstance(a.targets[0], (ast.Tuple, ast.List)) and
+                len(c.generators) == 1 and not c.generators[0].ifs and
+                isinstance(c.generators[0].target, ast.Name) and
+                isinstance(c.generators[0].iter, (ast.Tuple, ast.List)) and
+                len(c.generators[0].iter.elts) == len(a.targets[0].elts)):
+            return None
+        gen = c.generators[0]
+        tp = path_of(gen.target, n.frame)
+        if tp is None:
+            return None
+        out = []
+        for el in gen.iter.elts:
+            k_el = self.k.eval(el, n.ctx, lambda p: d.get(p), n.frame)
+            out.append(self.k.eval(
+                c.elt, n.ctx, lambda q, k_el=k_el: k_el if q == tp
+                else d.get(q), n.frame))
+        return out
+
     def _transfer(self, n: Node, st):
         d = dict(st)
         k = n.kind
         if k == 'stmt':
             a = n.ast
             if isinstance(a, ast.Assign):
+                ek = self._comp_elements(a, n, d)
+                if ek is not None:
+                    # a, b = [f(v) for v in (a, b)]: element by element
+                    for t, kk in zip(a.targets[0].elts, ek):
+                        self._assign(d, t, kk, n)
+                    return {None: _freeze(d), 'exc': st}
                 v = self.k.eval(a.value, n.ctx, lambda p: d.get(p), n.frame)
                 for t in a.targets:
                     self._assign(d, t, v, n)
@@ -483,49 +531,7 @@ class KindFlow:
             if path is None:
                 return
             cur = t.get(path, UNKNOWN)
-            want = []
-            types = test.args[1].elts if isinstance(
-                test.args[1], ast.Tuple) else [test.args[1]]
-            for ty in types:
-                q = p.resolve_expr_qname(n.ctx.func.module, ty)
-                if q:
-                    want.append(self.k.class_kind(q))
-
-            ABC = {
-                'collections.abc.Mapping': ('Dict',),
-                'collections.abc.MutableMapping': ('Dict',),
-                'collections.abc.Sequence': ('List', 'Tuple', 'Str',
-                                             'Bytes'),
-                'collections.abc.MutableSequence': ('List',),
-                'collections.abc.Set': ('Set',),
-                'collections.abc.Iterable': ('List', 'Tuple', 'Str',
-                                             'Bytes', 'Dict', 'Set',
-                                             'DictView', 'Gen'),
-            }
-
-            def matches(kind, w):
-                if kind == w:
-                    return True
-                if isinstance(w, tuple) and w[0] == 'inst' and w[1] in ABC:
-                    if kind in ABC[w[1]]:
-                        return True
-                    if isinstance(kind, tuple) and kind[0] == 'tuple' and \
-                            'Tuple' in ABC[w[1]]:
-                        return True
-                    return False
-                if isinstance(kind, tuple) and isinstance(w, tuple) and \
-                        kind[0] == w[0] and kind[0] in ('exc', 'inst'):
-                    return p.is_subclass(kind[1], w[1])
-                if isinstance(kind, tuple) and kind[0] == 'tuple' and \
-                        w == 'Tuple':
-                    return True
-                return False
-            yes = frozenset(kk for kk in cur if kk != U and
-                            any(matches(kk, w) for w in want))
-            no = frozenset(kk for kk in cur if kk == U or
-                           not any(matches(kk, w) for w in want))
-            if U in cur:
-                yes = yes | frozenset(want)
+            yes, no = isinstance_split(self.k, test, n.ctx.func.module, cur)
             t[path] = yes
             f[path] = no
             return
@@ -550,6 +556,56 @@ class KindFlow:
         if path is not None and path in t:
             cur = t[path]
             t[path] = frozenset(cur - ks('None')) or UNKNOWN
+
+
+def isinstance_split(K, test, module, cur):
+    """(kinds of `cur` for which isinstance(x, T) holds, kinds for which it
+    does not), for the isinstance() call `test` written in `module`"""
+    p = K.e.p
+    want = []
+    types = test.args[1].elts if isinstance(
+        test.args[1], ast.Tuple) else [test.args[1]]
+    for ty in types:
+        q = p.resolve_expr_qname(module, ty)
+        if q:
+            want.append(K.class_kind(q))
+
+    ABC = {
+        'collections.abc.Mapping': ('Dict',),
+        'collections.abc.MutableMapping': ('Dict',),
+        'collections.abc.Sequence': ('List', 'Tuple', 'Str',
+                                     'Bytes'),
+        'collections.abc.MutableSequence': ('List',),
+        'collections.abc.Set': ('Set',),
+        'collections.abc.Iterable': ('List', 'Tuple', 'Str',
+                                     'Bytes', 'Dict', 'Set',
+                                     'DictView', 'Gen'),
+    }
+
+    def matches(kind, w):
+        if kind == w:
+            return True
+        if isinstance(w, tuple) and w[0] == 'inst' and w[1] in ABC:
+            if kind in ABC[w[1]]:
+                return True
+            if isinstance(kind, tuple) and kind[0] == 'tuple' and \
+                    'Tuple' in ABC[w[1]]:
+                return True
+            return False
+        if isinstance(kind, tuple) and isinstance(w, tuple) and \
+                kind[0] == w[0] and kind[0] in ('exc', 'inst'):
+            return p.is_subclass(kind[1], w[1])
+        if isinstance(kind, tuple) and kind[0] == 'tuple' and \
+                w == 'Tuple':
+            return True
+        return False
+    yes = frozenset(kk for kk in cur if kk != U and
+                    any(matches(kk, w) for w in want))
+    no = frozenset(kk for kk in cur if kk == U or
+                   not any(matches(kk, w) for w in want))
+    if U in cur:
+        yes = yes | frozenset(want)
+    return yes, no
 
 
 def _freeze(d: dict):
